@@ -4,6 +4,7 @@ import (
 	"io"
 	"path"
 	"path/filepath"
+	"strings"
 
 	"github.com/git-lfs/git-lfs/v3/config"
 	"github.com/git-lfs/git-lfs/v3/errors"
@@ -256,7 +257,13 @@ func catFileBatchTreeForPointers(treeblobs *TreeBlobChannelWrapper, gitEnv, osEn
 	for _, path := range paths {
 		// Convert all separators to `/` before creating a pattern to
 		// avoid characters being escaped in situations like `subtree\*.md`
-		pattern := filepathfilter.NewPattern(filepath.ToSlash(path.Path), filepathfilter.GitAttributes)
+		text := filepath.ToSlash(path.Path)
+		if i := strings.LastIndex(text, "/"); path.AnyDepth && i >= 0 {
+			// `*.dat` in sub/.gitattributes applies to sub/a.dat
+			// and to sub/deep/b.dat alike
+			text = text[:i+1] + "**/" + text[i+1:]
+		}
+		pattern := filepathfilter.NewPattern(text, filepathfilter.GitAttributes)
 		if path.Tracked {
 			includes = append(includes, pattern)
 		} else {
